@@ -30,8 +30,9 @@ Proof. induction a; simpl; intros; auto. Qed.
 Lemma cat_lines_cons : forall l r, cat_lines (l :: r) = (l ++ nl) ++ cat_lines r.
 Proof. intros. unfold cat_lines. simpl map. apply concat_cons. Qed.
 
-Lemma cat_objs_cons : forall o r, cat_objs (o :: r) = cat_lines (lines_of o) ++ cat_objs r.
-Proof. intros. unfold cat_objs. simpl map. apply concat_cons. Qed.
+Lemma cat_objs_cons : forall b o r,
+  cat_objs_r b (o :: r) = cat_lines (strip_if b (lines_of o)) ++ cat_objs_r b r.
+Proof. intros. unfold cat_objs_r. simpl map. apply concat_cons. Qed.
 
 Lemma interp_app : forall p a b, interp p (a ++ b)%list = interp p a ++ interp p b.
 Proof. intros. unfold interp. rewrite map_app. apply concat_app. Qed.
@@ -146,7 +147,7 @@ Qed.
 Lemma exec_ostep_wrote : forall o x st st' r,
   exec_ostep E o x st = (st', r) -> exists W, wrote st st' W.
 Proof.
-  intros o [| |] st st' r H; simpl in H.
+  intros o [| |rs] st st' r H; simpl in H.
   - exists "". now apply do_format_char in H.
   - inversion H; subst. exists "". apply wrote_refl.
   - destruct (write_lines_char _ _ _ _ H) as (W & ? & _). eauto.
@@ -181,7 +182,7 @@ Lemma ostep_list_eqb_eq : forall a b, ostep_list_eqb a b = true -> a = b.
 Proof.
   induction a as [|x a IH]; destruct b as [|y b]; simpl; intros H; try discriminate; auto.
   apply andb_true_iff in H as [H1 H2]. f_equal; auto.
-  destruct x, y; simpl in H1; congruence.
+  destruct x, y; simpl in H1; try congruence. apply eqb_prop in H1. congruence.
 Qed.
 
 Definition nowarn (b : list ostep) := filter (fun o => negb (is_warn o)) b.
@@ -192,48 +193,48 @@ Proof.
   destruct x; simpl in H; try discriminate. simpl. auto.
 Qed.
 
-Lemma phase2 : forall o b st st' r,
-  nowarn b = [WriteLines] -> exec_osteps E o b st = (st', r) ->
-  exists W, wrote st st' W /\ (r = Ok -> W = cat_lines (cur st)).
+Lemma phase2 : forall o b st st' r rs,
+  nowarn b = [WriteLines rs] -> exec_osteps E o b st = (st', r) ->
+  exists W, wrote st st' W /\ (r = Ok -> W = cat_lines (strip_if rs (cur st))).
 Proof.
-  induction b as [|x b IH]; simpl; intros st st' r Hf H; try discriminate.
+  induction b as [|x b IH]; simpl; intros st st' r rs Hf H; try discriminate.
   destruct x; simpl in Hf; try discriminate.
   - simpl in H. eauto.
-  - inversion Hf as [Hf']. simpl in H.
-    destruct (write_lines E (cur st) st) as [st1 r1] eqn:H1.
+  - inversion Hf as [[Hrs Hf']]. subst r0. simpl in H.
+    destruct (write_lines E (strip_if rs (cur st)) st) as [st1 r1] eqn:H1.
     destruct (write_lines_char _ _ _ _ H1) as (W & Hw & Hc & Hv).
     destruct r1.
     + rewrite phase3 in H by assumption. inversion H; subst. eauto.
     + inversion H; subst. exists W. split; auto; try discriminate.
 Qed.
 
-Lemma phase1 : forall o b st st' r,
-  nowarn b = [Format; WriteLines] -> exec_osteps E o b st = (st', r) ->
-  exists W, wrote st st' W /\ (r = Ok -> W = cat_lines (lines_of o)).
+Lemma phase1 : forall o b st st' r rs,
+  nowarn b = [Format; WriteLines rs] -> exec_osteps E o b st = (st', r) ->
+  exists W, wrote st st' W /\ (r = Ok -> W = cat_lines (strip_if rs (lines_of o))).
 Proof.
-  induction b as [|x b IH]; simpl; intros st st' r Hf H; try discriminate.
+  induction b as [|x b IH]; simpl; intros st st' r rs Hf H; try discriminate.
   destruct x; simpl in Hf; try discriminate.
   - inversion Hf as [Hf']. simpl in H.
     destruct (do_format E o st) as [st1 r1] eqn:H1.
     destruct (do_format_char _ _ _ _ H1) as (Hw1 & Hc1).
     destruct r1.
-    + destruct (phase2 _ _ _ _ _ Hf' H) as (W & Hw & Hv).
+    + destruct (phase2 _ _ _ _ _ _ Hf' H) as (W & Hw & Hv).
       exists ("" ++ W). split; [eapply wrote_trans; eauto|].
       intros ->. simpl. rewrite Hv, Hc1; auto.
     + inversion H; subst. exists "". split; auto; try discriminate.
   - simpl in H. eauto.
 Qed.
 
-Lemma exec_objs_char : forall b os st st' r,
-  loop_ok b = true -> exec_objs E b os st = (st', r) ->
-  exists W, wrote st st' W /\ (r = Ok -> W = cat_objs os).
+Lemma exec_objs_char : forall b os st st' r rs,
+  loop_ok rs b = true -> exec_objs E b os st = (st', r) ->
+  exists W, wrote st st' W /\ (r = Ok -> W = cat_objs_r rs os).
 Proof.
-  intros b os st st' r Hb. apply ostep_list_eqb_eq in Hb. fold (nowarn b) in Hb.
+  intros b os st st' r rs Hb. apply ostep_list_eqb_eq in Hb. fold (nowarn b) in Hb.
   revert st st' r.
   induction os as [|o os IH]; simpl; intros st st' r H.
   - inversion H; subst. exists "". split; [apply wrote_refl|auto].
   - destruct (exec_osteps E o b st) as [st1 r1] eqn:H1.
-    destruct (phase1 _ _ _ _ _ Hb H1) as (W1 & Hw1 & Hv1).
+    destruct (phase1 _ _ _ _ _ _ Hb H1) as (W1 & Hw1 & Hv1).
     destruct r1.
     + destruct (IH _ _ _ H) as (W2 & Hw2 & Hv2).
       exists (W1 ++ W2). split; [eapply wrote_trans; eauto|].
@@ -272,9 +273,12 @@ Lemma exec_step_pieces : forall ok s st st' r,
 Proof.
   intros ok s st st' r Hs H. destruct s; simpl in Hs; try discriminate; simpl in H.
   - inversion H; subst. exists "". split; [apply wrote_refl|auto].
-  - simpl piece_of in *. destruct (loop_ok body) eqn:Hb; simpl in Hs; try discriminate.
-    destruct (exec_objs_char _ _ _ _ _ Hb H) as (W & Hw & Hv).
-    exists W. split; auto.
+  - simpl piece_of in *. destruct (loop_ok true body) eqn:Hb.
+    + destruct (exec_objs_char _ _ _ _ _ _ Hb H) as (W & Hw & Hv).
+      exists W. split; auto.
+    + destruct (loop_ok false body) eqn:Hb'; simpl in Hs; try discriminate.
+      destruct (exec_objs_char _ _ _ _ _ _ Hb' H) as (W & Hw & Hv).
+      exists W. split; auto.
   - unfold interp; simpl. destruct (p_children (e_prob E)) as [ls|] eqn:Hc; [destruct (a_child (e_adv E))|].
     + inversion H; subst. exists "". split; [apply wrote_refl|discriminate].
     + destruct (write_lines_char _ _ _ _ H) as (W & Hw & _ & Hv).
@@ -365,7 +369,7 @@ Proof.
   pose proof (exec_list_frame _ _ _ _ _ H2) as F2.
   destruct (exec_list E (is_ok r2) (w_exit w) s2) as [s3 r3] eqn:H3.
   pose proof (exec_list_frame _ _ _ _ _ H3) as F3.
-  destruct (exec_list E (is_ok r2 && is_ok r3) (w_final w) s3) as [s4 r4] eqn:H4.
+  destruct (exec_list E (is_ok r2) (w_final w) s3) as [s4 r4] eqn:H4.
   pose proof (exec_list_frame _ _ _ _ _ H4) as F4.
   assert (F : frame st s4).
   { eapply frame_trans; [|exact F4]. eapply frame_trans; [|exact F3]. eapply frame_trans; eauto. }
@@ -542,7 +546,9 @@ Proof.
   induction a as [|x a IH]; destruct b as [|y b]; simpl; intros H; try discriminate; auto.
   apply andb_true_iff in H as [H1 H2]. f_equal; auto.
   destruct x, y; simpl in H1; try discriminate; auto.
-  destruct s, s0; simpl in H1; try discriminate; auto.
+  - apply andb_true_iff in H1 as [H1 H3]. apply eqb_prop in H3. subst.
+    destruct s, s0; simpl in H1; try discriminate; auto.
+  - apply eqb_prop in H1. congruence.
 Qed.
 
 Lemma step_eqb_eq : forall a b, step_eqb a b = true -> a = b.
@@ -561,8 +567,16 @@ Proof.
   apply andb_true_iff in H as [H1 H2]. f_equal; auto using step_eqb_eq.
 Qed.
 
-Lemma interp_canonical : forall p, interp p canonical_pieces = spec_render p.
-Proof. intros p. unfold interp, canonical_pieces, spec_render. simpl. reflexivity. Qed.
+Lemma interp_canonical : forall r p, interp p (canonical_pieces r) = spec_render_r r p.
+Proof. intros r p. unfold interp, canonical_pieces, spec_render_r. simpl. reflexivity. Qed.
+
+Lemma body_pieces : forall w, body_blocks_in_order w = true ->
+  pieces (w_body w) = canonical_pieces (w_strips w).
+Proof.
+  intros w H. unfold body_blocks_in_order in H. destruct (w_strips w) eqn:Hs.
+  - unfold w_strips in Hs. now apply piece_list_eqb_eq.
+  - simpl in H. now apply piece_list_eqb_eq.
+Qed.
 
 (* state at the end of the with body *)
 Lemma body_end : forall w st s1 s2 r2,
@@ -570,7 +584,7 @@ Lemma body_end : forall w st s1 s2 r2,
   exec_list E true (w_open w) st = (s1, Ok) ->
   exec_list E true (w_body w) s1 = (s2, r2) ->
   handle s2 = Some Temp /\ pend s2 = true /\ fs s2 d = fs st d /\ fs st d <> Dir /\
-  exists W, fs s2 t = File W /\ (r2 = Ok -> W = spec_render (e_prob E)).
+  exists W, fs s2 t = File W /\ (r2 = Ok -> W = spec_render_r (w_strips w) (e_prob E)).
 Proof.
   intros w st s1 s2 r2 Hw Hsafe H1 H2.
   destruct (writer_ok_inv _ Hw) as (Hg & Hat & Hop & Hex & Hbo & Hch & Htn).
@@ -580,8 +594,8 @@ Proof.
   pose proof (guards_passed _ _ _ H1 Hgd) as Hnd.
   unfold opens_temp_after_guards in Hop.
   destruct (open_char _ _ _ _ Hop H1) as [[Hc _] | (_ & Hh & Hp & _ & Hf)]; [congruence|].
-  unfold body_blocks_in_order in Hbo. apply piece_list_eqb_eq in Hbo.
-  assert (Hnb : forallb not_bad (pieces (w_body w)) = true) by (rewrite Hbo; reflexivity).
+  apply body_pieces in Hbo.
+  assert (Hnb : forallb not_bad (pieces (w_body w)) = true) by (rewrite Hbo; destruct (w_strips w); reflexivity).
   destruct (exec_list_pieces _ _ _ _ _ Hnb H2) as (W & (Hwf & Hwh & Hwp) & Hv).
   repeat split; auto; try congruence.
   exists W. split.
@@ -604,7 +618,7 @@ Lemma exit_outcome : forall w ok s2 s3 r3 s4 r4 W,
   temp_removed_on_failure w = true ->
   handle s2 = Some Temp -> pend s2 = true -> fs s2 t = File W -> fs s2 d <> Dir ->
   exec_list E ok (w_exit w) s2 = (s3, r3) ->
-  exec_list E (ok && is_ok r3) (w_final w) s3 = (s4, r4) ->
+  exec_list E ok (w_final w) s3 = (s4, r4) ->
   (ok = true /\ r3 = Ok /\ r4 = Ok /\ fs s4 d = File W /\ fs s4 t = Absent) \/
   ((ok = false \/ r3 <> Ok \/ r4 <> Ok) /\ fs s4 d = fs s2 d /\
      (fs s4 t = Absent \/ may_leave_temp w (e_adv E) = true)).
@@ -635,7 +649,7 @@ Proof.
     unfold may_leave_temp, cleanup_total, exit_try_finally. rewrite Hex, Hfi in *.
     unfold exit_try_shape in H3. unfold exit_final_shape in H4. simpl in H3. fold t d in H3.
     destruct (a_close (e_adv E)) eqn:Hc.
-    { inversion H3; subst s3 r3. clear H3. rewrite andb_false_r in H4. simpl in H4. rewrite Hp in H4.
+    { inversion H3; subst s3 r3. clear H3. simpl in H4. rewrite Hp in H4.
       fold t in H4. destruct (a_remove (e_adv E)) eqn:Hr.
       - inversion H4; subst. xo_bad.
       - rewrite Ht in H4. inversion H4; subst. xo_bad. }
@@ -661,7 +675,7 @@ Theorem run_char : forall w st st' r,
   (* open() raised *)
   (r <> Ok /\ st' = st) \/
   (* everything written and moved over the destination (the warning hand-over may still raise) *)
-  ((r = Ok \/ a_post (e_adv E) = true) /\ fs st' d = File (spec_render (e_prob E)) /\ fs st' t = Absent) \/
+  ((r = Ok \/ a_post (e_adv E) = true) /\ fs st' d = File (spec_render_r (w_strips w) (e_prob E)) /\ fs st' t = Absent) \/
   (* the body or __exit__ raised: the destination is untouched and the temporary has been removed,
      unless a crash point that defeats the clean-up was hit *)
   (r <> Ok /\ fs st' d = fs st d /\ (fs st' t = Absent \/ may_leave_temp w (e_adv E) = true)).
@@ -679,7 +693,7 @@ Proof.
   destruct (exec_list E true (w_body w) s1) as [s2 r2] eqn:H2.
   destruct (body_end _ _ _ _ _ Hw0 Hsafe H1 H2) as (Hh & Hp & Ed & Hnd & W & Ht & Hv).
   destruct (exec_list E (is_ok r2) (w_exit w) s2) as [s3 r3] eqn:H3.
-  destruct (exec_list E (is_ok r2 && is_ok r3) (w_final w) s3) as [s4 r4] eqn:H4.
+  destruct (exec_list E (is_ok r2) (w_final w) s3) as [s4 r4] eqn:H4.
   assert (Hnd2 : fs s2 d <> Dir) by congruence.
   destruct (exit_outcome _ _ _ _ _ _ _ _ Hex Hh Hp Ht Hnd2 H3 H4) as
     [(Hok & -> & -> & Hd4 & Ht4) | (Hbad & Hd4 & Ht4)].
@@ -775,7 +789,7 @@ Qed.
 Theorem write_atomic_general : forall w E f f' e,
   writer_ok w = true -> e_temp E <> e_dest E ->
   run_writer w E f = (f', Err e) ->
-  f' (e_dest E) = f (e_dest E) \/ f' (e_dest E) = File (spec_render (e_prob E)).
+  f' (e_dest E) = f (e_dest E) \/ f' (e_dest E) = File (spec_render_r (w_strips w) (e_prob E)).
 Proof.
   intros w E f f' e Hw Hne H. apply run_writer_state in H as (s & H & ->).
   destruct (run_char E Hne w _ _ _ Hw (init_safe f) H) as
@@ -794,7 +808,7 @@ Qed.
 Theorem write_success : forall w E f f',
   writer_ok w = true -> e_temp E <> e_dest E ->
   run_writer w E f = (f', Ok) ->
-  f' (e_dest E) = File (spec_render (e_prob E)) /\ f' (e_temp E) = Absent /\
+  f' (e_dest E) = File (spec_render_r (w_strips w) (e_prob E)) /\ f' (e_temp E) = Absent /\
   forall q, q <> e_dest E -> q <> e_temp E -> f' q = f q.
 Proof.
   intros w E f f' Hw Hne H. pose proof H as H0. apply run_writer_state in H as (s & H & ->).
@@ -830,7 +844,7 @@ Proof. intros w x Hc Hx. unfold may_leave_temp. rewrite Hc. destruct x; simpl in
 Theorem write_failure_at : forall w x d t ov p f f' e,
   writer_ok w = true -> t <> d -> f t = Absent ->
   write_with_failure_at x w d t ov p f = (f', Err e) ->
-  (f' d = f d \/ (x = FPost /\ f' d = File (spec_render p))) /\
+  (f' d = f d \/ (x = FPost /\ f' d = File (spec_render_r (w_strips w) p))) /\
   (may_leave_temp w (adv_of x) = false -> f' t = Absent) /\
   (forall q, q <> d -> q <> t -> f' q = f q).
 Proof.
@@ -917,14 +931,14 @@ Qed.
 Theorem headline_atomic : forall f pid d ov p k f' e,
   f (tmp_of pid d) = Absent ->
   write_with_failure_at k w d (tmp_of pid d) ov p f = (f', Err e) ->
-  (f' d = f d \/ (k = FPost /\ f' d = File (spec_render p))) /\
+  (f' d = f d \/ (k = FPost /\ f' d = File (spec_render_r (w_strips w) p))) /\
   (may_leave_temp w (adv_of k) = false -> f' (tmp_of pid d) = Absent) /\
   (forall q, q <> d -> q <> tmp_of pid d -> f' q = f q).
 Proof. intros. eapply write_failure_at; eauto using tmp_of_ne. Qed.
 
 Theorem headline_atomic_any : forall f pid d ov p adv f' e,
   run_writer w (mkenv d (tmp_of pid d) ov p adv) f = (f', Err e) ->
-  (f' d = f d \/ f' d = File (spec_render p)) /\
+  (f' d = f d \/ f' d = File (spec_render_r (w_strips w) p)) /\
   (a_post adv = false -> f' d = f d).
 Proof.
   intros f pid d ov p adv f' e H. split.
@@ -935,7 +949,7 @@ Qed.
 
 Theorem headline_success : forall f pid d ov p adv f',
   run_writer w (mkenv d (tmp_of pid d) ov p adv) f = (f', Ok) ->
-  f' d = File (spec_render p) /\ f' (tmp_of pid d) = Absent /\
+  f' d = File (spec_render_r (w_strips w) p) /\ f' (tmp_of pid d) = Absent /\
   forall q, q <> d -> q <> tmp_of pid d -> f' q = f q.
 Proof. intros f pid d ov p adv f' H. apply (write_success w (mkenv d (tmp_of pid d) ov p adv) f f' Hw (tmp_of_ne pid d) H). Qed.
 
